@@ -23,7 +23,14 @@ type instrStats struct {
 // `X.RLock()` is preceded (on the same line, so line numbers are preserved) by
 // a verifsim.BeforeLock call carrying a TryLock probe, and every statement
 // matching one of the extra regexps is preceded by verifsim.Yield.
-func instrumentFile(path, rel string, src []byte, exclude map[string]bool, extra []*regexp.Regexp, afterUnlock bool, st *instrStats) ([]byte, error) {
+type instrOpts struct {
+	exclude     map[string]bool
+	extra       []*regexp.Regexp
+	afterUnlock bool // scheduling point after every explicit Unlock()/RUnlock() statement
+	discipline  bool // lock-discipline bookkeeping: Acquired/Released around lock calls, Write before writes to receiver state
+}
+
+func instrumentFile(path, rel string, src []byte, o instrOpts, st *instrStats) ([]byte, error) {
 	fset := token.NewFileSet()
 	f, err := parser.ParseFile(fset, path, src, parser.ParseComments)
 	if err != nil {
@@ -35,51 +42,134 @@ func instrumentFile(path, rel string, src []byte, exclude map[string]bool, extra
 	}
 	var inserts []ins
 	base := filepath.Base(rel)
+	text := func(n ast.Node) string { return string(src[fset.Position(n.Pos()).Offset:fset.Position(n.End()).Offset]) }
+	// receiver name of the method a statement belongs to (closures inherit it)
+	recvOf := map[ast.Stmt]string{}
+	if o.discipline {
+		for _, d := range f.Decls {
+			fd, ok := d.(*ast.FuncDecl)
+			if !ok || fd.Recv == nil || fd.Body == nil || len(fd.Recv.List) == 0 || len(fd.Recv.List[0].Names) == 0 {
+				continue
+			}
+			rn := fd.Recv.List[0].Names[0].Name
+			if rn == "_" {
+				continue
+			}
+			ast.Inspect(fd.Body, func(n ast.Node) bool {
+				if s, ok := n.(ast.Stmt); ok {
+					recvOf[s] = rn
+				}
+				return true
+			})
+		}
+	}
+	rootIdent := func(e ast.Expr) (string, bool) { // root identifier of a selector/index chain; ok only if it is a chain (not the bare ident)
+		chain := false
+		for {
+			switch x := e.(type) {
+			case *ast.SelectorExpr:
+				e, chain = x.X, true
+			case *ast.IndexExpr:
+				e, chain = x.X, true
+			case *ast.StarExpr:
+				e = x.X
+			case *ast.ParenExpr:
+				e = x.X
+			case *ast.Ident:
+				return x.Name, chain
+			default:
+				return "", false
+			}
+		}
+	}
+	lockCall := func(e ast.Expr) (sel *ast.SelectorExpr, name string) {
+		call, ok := e.(*ast.CallExpr)
+		if !ok || len(call.Args) != 0 {
+			return nil, ""
+		}
+		se, ok := call.Fun.(*ast.SelectorExpr)
+		if !ok {
+			return nil, ""
+		}
+		switch se.Sel.Name {
+		case "Lock", "RLock", "Unlock", "RUnlock":
+			return se, se.Sel.Name
+		}
+		return nil, ""
+	}
 	visitList := func(list []ast.Stmt) {
 		for _, s := range list {
 			pos := fset.Position(s.Pos())
+			endOff := fset.Position(s.End()).Offset
 			site := fmt.Sprintf("%s:%d", base, pos.Line)
-			stmtText := string(src[fset.Position(s.Pos()).Offset:fset.Position(s.End()).Offset])
+			if o.exclude[site] {
+				continue
+			}
 			if es, ok := s.(*ast.ExprStmt); ok {
-				if call, ok := es.X.(*ast.CallExpr); ok && len(call.Args) == 0 {
-					if sel, ok := call.Fun.(*ast.SelectorExpr); ok && (sel.Sel.Name == "Lock" || sel.Sel.Name == "RLock") {
-						if exclude[site] {
-							continue
-						}
-						x := string(src[fset.Position(sel.X.Pos()).Offset:fset.Position(sel.X.End()).Offset])
+				if sel, name := lockCall(es.X); sel != nil {
+					x := text(sel.X)
+					switch name {
+					case "Lock", "RLock":
 						try, un := "TryLock", "Unlock"
-						if sel.Sel.Name == "RLock" {
+						if name == "RLock" {
 							try, un = "TryRLock", "RUnlock"
 						}
-						text := fmt.Sprintf("verifsim.BeforeLock(%q, func() bool { if %s.%s() { %s.%s(); return true }; return false }); ", site, x, try, x, un)
-						inserts = append(inserts, ins{pos.Offset, text})
+						inserts = append(inserts, ins{pos.Offset, fmt.Sprintf("verifsim.BeforeLock(%q, func() bool { if %s.%s() { %s.%s(); return true }; return false }); ", site, x, try, x, un)})
 						st.Locks++
-						continue
+						if o.discipline {
+							inserts = append(inserts, ins{endOff, fmt.Sprintf("; verifsim.Acquired(%q, %v)", x, name == "Lock")})
+						}
+					case "Unlock", "RUnlock":
+						if o.discipline {
+							inserts = append(inserts, ins{pos.Offset, fmt.Sprintf("verifsim.Released(%q); ", x)})
+						}
+						if o.afterUnlock {
+							inserts = append(inserts, ins{endOff, fmt.Sprintf("; verifsim.Yield(%q)", "after-unlock@"+site)})
+							st.Yields++
+						}
 					}
+					continue
 				}
 			}
-			// optional: a scheduling point right after every explicit (non-deferred) X.Unlock()/X.RUnlock() statement, so that
-			// another actor can run between the release of a lock and the statements that follow it
-			if afterUnlock {
-				if es, ok := s.(*ast.ExprStmt); ok {
-					if call, ok := es.X.(*ast.CallExpr); ok && len(call.Args) == 0 {
-						if sel, ok := call.Fun.(*ast.SelectorExpr); ok && (sel.Sel.Name == "Unlock" || sel.Sel.Name == "RUnlock") && !exclude[site] {
-							end := fset.Position(s.End()).Offset
-							inserts = append(inserts, ins{end, fmt.Sprintf("; verifsim.Yield(%q)", "after-unlock@"+site)})
-							st.Yields++
-							continue
+			if ds, ok := s.(*ast.DeferStmt); ok && o.discipline {
+				if sel, name := lockCall(ds.Call); sel != nil && (name == "Unlock" || name == "RUnlock") {
+					// defer X.Unlock()  ->  defer func() { verifsim.Released("X"); X.Unlock() }()
+					inserts = append(inserts, ins{fset.Position(ds.Call.Pos()).Offset, fmt.Sprintf("func() { verifsim.Released(%q); ", text(sel.X))})
+					inserts = append(inserts, ins{endOff, " }()"})
+					continue
+				}
+			}
+			if rn := recvOf[s]; o.discipline && rn != "" {
+				var lhs []ast.Expr
+				switch w := s.(type) {
+				case *ast.AssignStmt:
+					if w.Tok != token.DEFINE {
+						lhs = w.Lhs
+					}
+				case *ast.IncDecStmt:
+					lhs = []ast.Expr{w.X}
+				case *ast.ExprStmt:
+					if call, ok := w.X.(*ast.CallExpr); ok {
+						if id, ok := call.Fun.(*ast.Ident); ok && id.Name == "delete" && len(call.Args) == 2 {
+							lhs = []ast.Expr{&ast.IndexExpr{X: call.Args[0]}}
 						}
 					}
 				}
+				for _, e := range lhs {
+					if root, chain := rootIdent(e); chain && root == rn {
+						inserts = append(inserts, ins{pos.Offset, fmt.Sprintf("verifsim.Write(%q, %q); ", site, rn)})
+						break
+					}
+				}
 			}
-			for _, re := range extra {
+			for _, re := range o.extra {
 				// only simple statements: a compound statement's text spans its body
 				switch s.(type) {
 				case *ast.ExprStmt, *ast.AssignStmt, *ast.ReturnStmt, *ast.IncDecStmt, *ast.GoStmt, *ast.DeferStmt:
 				default:
 					continue
 				}
-				if re.MatchString(stmtText) && !exclude[site] {
+				if re.MatchString(text(s)) {
 					inserts = append(inserts, ins{pos.Offset, fmt.Sprintf("verifsim.Yield(%q); ", site)})
 					st.Yields++
 					break
@@ -121,7 +211,7 @@ func instrumentFile(path, rel string, src []byte, exclude map[string]bool, extra
 	return []byte(out.String()), nil
 }
 
-func instrumentAll(repo, outDir string, globs []string, excludeSites []string, extraRe []string, afterUnlock bool, resolve func(string) string, overlay map[string]string) (*instrStats, error) {
+func instrumentAll(repo, outDir string, globs []string, excludeSites []string, extraRe []string, afterUnlock, discipline bool, resolve func(string) string, overlay map[string]string) (*instrStats, error) {
 	st := &instrStats{}
 	excl := map[string]bool{}
 	for _, s := range excludeSites {
@@ -155,7 +245,7 @@ func instrumentAll(repo, outDir string, globs []string, excludeSites []string, e
 			if err != nil {
 				return nil, err
 			}
-			out, err := instrumentFile(m, rel, src, excl, res, afterUnlock, st)
+			out, err := instrumentFile(m, rel, src, instrOpts{exclude: excl, extra: res, afterUnlock: afterUnlock, discipline: discipline}, st)
 			if err != nil {
 				return nil, fmt.Errorf("instrument %s: %v", rel, err)
 			}
